@@ -392,6 +392,17 @@ def numbers(ses, rep):
                 rep.add(oid, status, v)
 
 
+def fallback(rep):
+    """kernels undecided: the literal and number batteries are run; only a changed value is reported"""
+    hit = literal_battery()
+    if hit:
+        v, rec = hit
+        rep.add("battery/literals", rep.violation({"obligation": "battery-after-undecided-kernel", "scenario": "literals"}, {"what": "kernel undecided; literal battery", "observed": v, **rec}), v)
+    v, rec = number_battery()
+    if v:
+        rep.add("battery/numbers", rep.violation({"obligation": "battery-after-undecided-kernel", "scenario": "numbers"}, {"what": "kernel undecided; number battery", "observed": v, "kind": "number", **rec}), v)
+
+
 def replay(path):
     d = json.load(open(path))
     r = d["replay"]
